@@ -83,6 +83,8 @@ func fsProbeStates() []harness.Tree {
 		// a typed file listed before an untyped one and before a collection (state carried from one
 		// listed member to the next would show)
 		{"/": {Dir: true}, "/a": {Dir: true}, "/a/a.html": {Content: "x"}, "/a/b": {Content: "yy"}, "/a/c": {Dir: true}, "/a/c/a": {Content: ""}},
+		// names that begin or end with two dots without being dot-dot segments
+		{"/": {Dir: true}, "/a": {Dir: true}, "/a/..b": {Content: "x"}, "/a/a..": {Content: "yy"}, "/..a": {Dir: true}, "/..a/c": {Content: "x"}},
 		// siblings one of whose names is a string prefix of the other
 		{"/": {Dir: true}, "/a": {Dir: true}, "/a/a": {Content: "x"}, "/ab": {Content: "yy"}, "/a.bak": {Dir: true}},
 		{"/": {Dir: true}, "/a": {Dir: true}, "/a/a": {Dir: true}, "/a/a/a": {Content: "x"}},
@@ -165,7 +167,7 @@ func fsRequests(quick bool) []harness.Req {
 		}
 	}
 	// names that need escaping: every method, and COPY/MOVE with escaped Destination headers
-	special := []string{"/a%41", "/100%", "/100%/a b", "/é", "/aA", "/100%/new%2f", "/a b", "/a", "/ab", "/a.bak"}
+	special := []string{"/a%41", "/100%", "/100%/a b", "/é", "/aA", "/100%/new%2f", "/a b", "/a", "/ab", "/a.bak", "/a/..b", "/..a", "/a/a..", "/..a/c"}
 	for _, p := range special {
 		for _, m := range []string{"GET", "HEAD", "DELETE", "MKCOL", "OPTIONS"} {
 			out = append(out, harness.Req{Method: m, Path: p})
